@@ -3,86 +3,112 @@ import HdVerif.Model.Basic
 
 State between calls: (1) the temporary tables of the object's SQLite database — `_Image._generate_temp_tables` creates
 `TemporaryStackTable` / `TemporaryChannelTable0`, yields to the read, and drops them afterwards; when the read raises, the
-generator is abandoned at the `yield` and the tables stay; (2) the decoded pixel array (`_pixel_array`), populated when the
-caller looks at `pixel_array` — afterwards frames are taken from it instead of being decoded one by one.
+generator is abandoned at the `yield` and the tables stay; (2) a LOCK on those tables: the frame query joins all of them, and
+while its cursor is open SQLite refuses `DROP TABLE` ("database table is locked").  The cursor is open after a read iff the
+read was left by an exception before the query was exhausted, the code did not close the cursor on the way out, and the
+caller holds on to the exception object (its traceback keeps the frames, and the cursor, alive: `pytest.raises`, a list, a
+REPL); (3) the decoded pixel array (`_pixel_array`), populated when the caller looks at `pixel_array` — afterwards frames are
+taken from it instead of being decoded one by one.
 
-One table is a flag (exists / does not exist); the operations are the ones extracted from the source (T8r). -/
+One table is a flag (exists / does not exist); the operations, whether the clean-up sits in `try … finally`, and whether the
+code closes its cursors on every exit are extracted from the source (T8r). -/
 namespace HdVerif.SegState
 open HdVerif
 
 inductive TempOp | dropIfExists | create | insert | drop
   deriving DecidableEq, Repr, Inhabited
 
-/-- the operations on ONE table, from the state "exists = `e`"; `fails` = the INSERT violates a constraint (a repeated output
-channel index).  Result: (all succeeded, the table exists afterwards).  `DROP TABLE` of a missing table and `CREATE TABLE` of an
-existing one are errors in SQLite; an INSERT that fails is rolled back, the table itself stays. -/
-def runOps (fails : Bool) : List TempOp → Bool → Bool × Bool
+/-- the operations on ONE table, from the state "exists = `e`", while the tables are locked or not (`l`); `fails` = the INSERT
+violates a constraint (a repeated output channel index).  Result: (all succeeded, the table exists afterwards).  `DROP TABLE` of
+a missing or of a LOCKED table and `CREATE TABLE` of an existing one are errors in SQLite; an INSERT that fails is rolled back,
+the table itself stays. -/
+def runOps (fails l : Bool) : List TempOp → Bool → Bool × Bool
   | [], e => (true, e)
-  | .dropIfExists :: rest, _ => runOps fails rest false
-  | .drop :: rest, true => runOps fails rest false
+  | .dropIfExists :: rest, true => if l then (false, true) else runOps fails l rest false
+  | .dropIfExists :: rest, false => runOps fails l rest false
+  | .drop :: rest, true => if l then (false, true) else runOps fails l rest false
   | .drop :: _, false => (false, false)
   | .create :: _, true => (false, true)
-  | .create :: rest, false => runOps fails rest true
+  | .create :: rest, false => runOps fails l rest true
   | .insert :: _, false => (false, false)
-  | .insert :: rest, true => if fails then (false, true) else runOps fails rest true
+  | .insert :: rest, true => if fails then (false, true) else runOps fails l rest true
 
 /-- a loop `for tdef in table_defs: <prog>` over the tables (`(fails, exists)` each); stops at the first failure -/
-def runAll (prog : List TempOp) : List (Bool × Bool) → Bool × List Bool
+def runAll (l : Bool) (prog : List TempOp) : List (Bool × Bool) → Bool × List Bool
   | [] => (true, [])
   | (f, e) :: rest =>
-    let r := runOps f prog e
+    let r := runOps f l prog e
     if r.1 then
-      let q := runAll prog rest
+      let q := runAll l prog rest
       (q.1, r.2 :: q.2)
     else (false, r.2 :: rest.map (·.2))
 
-/-- `with self._generate_temp_tables(defs): body` — the result and the tables left behind.  `guarded` = the `yield` is inside
-`try … finally`: then the clean-up runs when the body raises, otherwise the generator is just closed -/
-def withTemp {α} (guarded : Bool) (pre post : List TempOp) (fails : List Bool) (db : List Bool)
-    (body : Except ErrKind α) : Except ErrKind α × List Bool :=
-  let p := runAll pre (fails.zip db)
-  if !p.1 then (.error .other, p.2) else
-  match body with
-  | .error e => (.error e, if guarded then (runAll post (p.2.map fun e => (false, e))).2 else p.2)
-  | .ok v =>
-    let q := runAll post (p.2.map fun e => (false, e))
-    (if q.1 then .ok v else .error .other, q.2)
+/-- the program of `_generate_temp_tables` and of the iterators around it, as extracted (T8r) -/
+structure Prog where
+  pre : List TempOp        -- per table, before the `yield`
+  post : List TempOp       -- per table, after it
+  guarded : Bool           -- the `yield` is inside `try … finally` (the clean-up also runs when the body raises)
+  closes : Bool            -- every query cursor is closed (or exhausted) on every exit of a read
+  deriving Repr, Inhabited
 
-/-- what the model needs of the extracted program (decidable; checked on the regenerated lists by `decide`):
-before the yield the outcome does not depend on whether the table already exists, a clean run leaves the table in place, a
-failing INSERT is an error; afterwards an existing table is removed without error -/
+/-- `with self._generate_temp_tables(defs): body` — the result, the tables left behind, and the lock.
+`kept` = the caller holds on to the exception of a refused read; `exhausted` = the frame query had delivered all its rows
+when the body ended (a refusal inside the frame loop — overlap, a value the dtype cannot hold, non-binary fractions — leaves it
+unexhausted).  While such an exception propagates the query is still open (`open_`): a clean-up in `finally` runs against
+locked tables; afterwards the lock lasts as long as the caller keeps the exception. -/
+def withTemp {α} (P : Prog) (fails : List Bool) (kept exhausted : Bool) (db : List Bool) (locked : Bool)
+    (body : Except ErrKind α) : Except ErrKind α × List Bool × Bool :=
+  let p := runAll locked P.pre (fails.zip db)
+  if !p.1 then (.error .other, p.2, locked) else
+  match body with
+  | .ok v =>
+    let q := runAll locked P.post (p.2.map fun e => (false, e))
+    (if q.1 then .ok v else .error .other, q.2, locked)
+  | .error e =>
+    let open_ := !exhausted && !P.closes
+    let after := if P.guarded then (runAll (locked || open_) P.post (p.2.map fun e => (false, e))).2 else p.2
+    (.error e, after, locked || (open_ && kept))
+
+/-- what the induction needs of the extracted table operations, with no lock in force (decidable; checked on the regenerated
+lists by `decide`): before the yield the outcome does not depend on whether the table already exists, a clean run leaves the
+table in place, a failing INSERT is an error; afterwards an existing table is removed without error -/
 def tempProgOk (pre post : List TempOp) : Bool :=
-  [true, false].all (fun f => runOps f pre true == runOps f pre false) &&
-  runOps false pre false == (true, true) && !(runOps true pre false).1 && runOps false post true == (true, false)
+  [true, false].all (fun f => runOps f false pre true == runOps f false pre false) &&
+  runOps false false pre false == (true, true) && !(runOps true false pre false).1 && runOps false false post true == (true, false)
 
 /-- the object between calls -/
 structure ObjState where
   cached : Bool          -- `_pixel_array` is populated
   db : List Bool         -- which temporary tables exist
+  locked : Bool := false -- a frame query of an earlier, refused read is still open on them
   deriving Repr, Inhabited
 
-/-- operations on one object: looking at `pixel_array`, or a read.  A read is given by which INSERTs fail and by what the frame
-loop returns when frames are decoded one by one (`direct`) and when they are taken from the cached array (`fromCache`) -/
+/-- operations on one object: looking at `pixel_array`; the caller letting go of the exceptions it kept; a read — given by which
+INSERTs fail, whether the caller keeps its exception, whether its frame query was exhausted, and what the frame loop returns
+when frames are decoded one by one (`direct`) and when they are taken from the cached array (`fromCache`) -/
 inductive Op (α : Type)
   | touch
-  | read (fails : List Bool) (direct fromCache : Except ErrKind α)
+  | release
+  | read (fails : List Bool) (kept exhausted : Bool) (direct fromCache : Except ErrKind α)
 
-def step {α} (guarded : Bool) (pre post : List TempOp) (σ : ObjState) : Op α → Option (Except ErrKind α) × ObjState
+def step {α} (P : Prog) (σ : ObjState) : Op α → Option (Except ErrKind α) × ObjState
   | .touch => (none, { σ with cached := true })
-  | .read fails direct fromCache =>
-    let r := withTemp guarded pre post fails σ.db (if σ.cached then fromCache else direct)
-    (some r.1, { σ with db := r.2 })
+  | .release => (none, { σ with locked := false })
+  | .read fails kept exhausted direct fromCache =>
+    let r := withTemp P fails kept exhausted σ.db σ.locked (if σ.cached then fromCache else direct)
+    (some r.1, { σ with db := r.2.1, locked := r.2.2 })
 
 /-- the answers of a history of operations -/
-def run {α} (guarded : Bool) (pre post : List TempOp) : List (Op α) → ObjState → List (Option (Except ErrKind α))
+def run {α} (P : Prog) : List (Op α) → ObjState → List (Option (Except ErrKind α))
   | [], _ => []
   | op :: rest, σ =>
-    let r := step guarded pre post σ op
-    r.1 :: run guarded pre post rest r.2
+    let r := step P σ op
+    r.1 :: run P rest r.2
 
 /-- the answer a read gives on a fresh object -/
 def stateless {α} : Op α → Option (Except ErrKind α)
   | .touch => none
-  | .read fails direct _ => some (if fails.any id then .error .other else direct)
+  | .release => none
+  | .read fails _ _ direct _ => some (if fails.any id then .error .other else direct)
 
 end HdVerif.SegState
